@@ -23,6 +23,7 @@ import (
 	"sort"
 	"strings"
 	"sync"
+	"time"
 
 	"oras.land/oras-go/v2/registry/remote/auth"
 	"verifharness/common"
@@ -95,6 +96,7 @@ type world struct {
 	noRedirect  bool
 	passthrough bool // the current request carries the caller's own Authorization header
 	perJobFetch map[int]int     // token requests per job (concurrent mixes)
+	cancelAt401 map[int]context.CancelFunc // jobs whose context is cancelled the moment the registry challenges them
 	ptable      []string        // parse results of headers outside Model/Challenge.v (for the model's parse_with)
 	ptableSeen  map[string]bool
 	noScope  bool           // a Bearer challenge without scope parameter was sent during this call
@@ -388,6 +390,12 @@ func (w *world) RoundTrip(req *http.Request) (*http.Response, error) {
 	}
 	host := req.URL.Host
 	dump := dumpRequest(req, body)
+	if w.cancelAt401 != nil {
+		// concurrent mixes: like the real transport, nothing is sent for a dead context
+		if err := req.Context().Err(); err != nil {
+			return nil, err
+		}
+	}
 
 	if w.authHost[host] || isTokenPath(req.URL.Path) {
 		return w.tokenEndpoint(req, body, dump)
@@ -503,6 +511,11 @@ func (w *world) RoundTrip(req *http.Request) (*http.Response, error) {
 		return resp(req, common.Pick(w.r, []int{200, 200, 201, 404, 403}), nil, "ok"), nil
 	}
 	ch := g.challenge(w, repo, action)
+	if jb, ok := req.Context().Value(jobKey{}).(int); ok {
+		if c := w.cancelAt401[jb]; c != nil {
+			c() // the caller gives up while the challenge is on its way: it reaches cache.Set with a dead context
+		}
+	}
 	w.answers = append(w.answers, "U"+common.Hex(ch))
 	h := http.Header{}
 	if ch != "" {
@@ -510,6 +523,9 @@ func (w *world) RoundTrip(req *http.Request) (*http.Response, error) {
 	}
 	return resp(req, 401, h, "unauthorized"), nil
 }
+
+// requestDeadline bounds every request of a sequential history (they take microseconds).
+const requestDeadline = 5 * time.Second
 
 var errInjected = errors.New("fakeNet: injected transport failure")
 
@@ -942,7 +958,8 @@ func historyCase(hseed uint64) {
 		case 2:
 			method, path = http.MethodDelete, "/v2/"+repo+"/manifests/v1"
 		}
-		ctx, cancelReq := context.WithCancel(context.Background())
+		// per-request watchdog: a request of a sequential history never waits for anybody
+		ctx, cancelReq := context.WithTimeout(context.Background(), requestDeadline)
 		if len(gh) > 0 {
 			ctx = auth.WithScopes(ctx, clone(gh)...)
 		}
@@ -1027,6 +1044,14 @@ func historyCase(hseed uint64) {
 		if res != nil {
 			io.Copy(io.Discard, res.Body)
 			res.Body.Close()
+		}
+		if err != nil && errors.Is(err, context.DeadlineExceeded) {
+			// nothing in a sequential history can make Do wait: it sat on an in-flight
+			// entry of the cache that nobody owns any more
+			cancelReq()
+			wedged["history"]++
+			run.OracleFail(id, "no-progress", fmt.Sprintf("request %d of history %d (%s %s, cache %s) made no progress for %v although no other request was running (sends so far %v): it waits on an in-flight token fetch that no caller owns", q, hseed, method, req.URL, flavour, requestDeadline, w.events), rep)
+			return
 		}
 		cancelReq()
 		if w.failed && result != "=transport" {
